@@ -72,13 +72,19 @@ structure Draw where
 structure RngState where
   gens : Gen → Stream
   pending : Nat → Option Nat
+  /-- `VecEnv._options[i]`: reset options handed to sub-env `i` at the next reset, as an inert payload
+  (`none` = `{}`); set by `VecEnv.set_options`, typically by the env constructor before the model exists -/
+  options : Nat → Option Nat
 
 inductive Op where
   /-- `random.seed(s)`, `np.random.seed(s)`, `th.manual_seed(s)`, `action_space.seed(s)`; OS entropy can not be seeded -/
   | seed (g : Gen) (s : Nat)
   /-- `VecEnv.seed(s)`: `_seeds[i] = s + i` for the `n` sub-environments -/
   | envSeed (s n : Nat)
-  /-- `VecEnv.reset()`: sub-env `i` gets `reset(seed=_seeds[i])` (re-seeds iff not `None`), then `_seeds` is cleared -/
+  /-- `VecEnv.set_options(opts)`: `_options[i] = opts[i]` (entries beyond the list: `{}`) -/
+  | setOptions (opts : List (Option Nat))
+  /-- `VecEnv.reset()`: sub-env `i` gets `reset(seed=_seeds[i], options=_options[i])` — BOTH, independently:
+  re-seeds iff the seed is not `None`, whatever the options are — then `_seeds` and `_options` are cleared -/
   | envReset (n : Nat)
   /-- `action_noise.reset()`: the state becomes a constant (OS entropy can not be reset) -/
   | reset (g : Gen)
@@ -108,7 +114,10 @@ def step (st : RngState) : Op → RngState × List Draw
   | .seed g s => if g = .os then (st, []) else (st.setGen g ⟨.seed s, 0⟩, [])
   | .reset g => if g = .os then (st, []) else (st.setGen g ⟨.const, 0⟩, [])
   | .envSeed s n => ({ st with pending := fun i => if i < n then some (s + i) else st.pending i }, [])
-  | .envReset n => ({ gens := deliver st n, pending := fun i => if i < n then none else st.pending i }, [])
+  | .setOptions opts => ({ st with options := fun i => opts.getD i none }, [])
+  | .envReset n =>
+    ({ gens := deliver st n, pending := fun i => if i < n then none else st.pending i,
+       options := fun i => if i < n then none else st.options i }, [])
   | .draw g k => (st.advance g k, [⟨g, (st.gens g).origin, (st.gens g).pos, k⟩])
   | .discard g k => (st.advance g k, [])
 
@@ -122,12 +131,12 @@ def run : List Op → RngState → RngState × List Draw
 
 def outputs (t : List Op) (st : RngState) : List Draw := (run t st).2
 
-/-- the seeds handed to sub-envs `0 … n-1` at each `envReset` of the trace -/
-def deliveries : List Op → RngState → List (List (Option Nat))
+/-- the (seed, options) pairs handed to sub-envs `0 … n-1` at each `envReset` of the trace -/
+def deliveries : List Op → RngState → List (List (Option Nat × Option Nat))
   | [], _ => []
   | op :: t, st =>
     (match op with
-      | .envReset n => [(List.range n).map st.pending]
+      | .envReset n => [(List.range n).map fun i => (st.pending i, st.options i)]
       | _ => []) ++ deliveries t (step st op).1
 
 /-! ### Static taint analysis -/
@@ -151,6 +160,7 @@ def lowStep (L : Low) : Op → Low
   | .seed g _ => if g = .os then L else { L with gens := fun h => if h = g then true else L.gens h }
   | .reset g => if g = .os then L else { L with gens := fun h => if h = g then true else L.gens h }
   | .envSeed _ n => { L with pend := fun i => if i < n then .some else L.pend i }
+  | .setOptions _ => L
   | .envReset n =>
     { gens := fun h =>
         match h with
@@ -327,6 +337,10 @@ def drawnGens : List Op → List Gen
 
 /-- an ambient state for executing the model: every generator has its own ambient origin `a` -/
 def ambientState (a : Nat) (pend : Option Nat) : RngState :=
-  ⟨fun _ => ⟨.ambient a, a⟩, fun _ => pend⟩
+  ⟨fun _ => ⟨.ambient a, a⟩, fun _ => pend, fun _ => none⟩
+
+/-- the same state with reset options pending (what `set_options` in the env constructor leaves behind) -/
+def RngState.withOptions (st : RngState) (opts : List (Option Nat)) : RngState :=
+  { st with options := fun i => opts.getD i none }
 
 end SB3Verif.Seeding
